@@ -36,7 +36,7 @@ PROBES = ["dirty_round_joined", "dirty_round_skipped_no_pruning", "optimality_fi
           "dirty_round_failed_and_swallowed", "final_round_fault_propagated", "threshold_retry",
           "memories_untracked_by_make", "memories_untracked_by_join",
           "unordered_permuted", "w1_runs", "wN_runs", "ru_metric_scenarios", "multi_row_fronts",
-          "finite_glb_scenarios", "staged_on_combinable_pmappings"]
+          "finite_glb_scenarios", "staged_on_combinable_pmappings", "memory_width_window_scenarios"]
 REAL_VS_STUB = {
     "real": ["make_pmappings, compress/decompress, multi_strategy_join, join_strategy_2, join_pmappings, "
              "OptimalityThresholder, prune_with_tolerance, PmappingGroup/PmappingDataframe merges, pareto kernels",
@@ -114,7 +114,23 @@ def gen_scenario(seed, k):
             # stage's own memory skipping has real work to do)
             "staged_input": r.choice(["normal", "normal", "combinable"]),
         })
-    return {"params": p, "runs": runs, "aux_seed": r.getrandbits(32)}
+    sc = {"params": p, "runs": runs, "aux_seed": r.getrandbits(32)}
+    # (drawn last, so that everything above is what it was before this regime existed)
+    # Memory-specific value width: the GlobalBuffer stores values wider than the workload declares
+    # them, and its size lies between "all tensors fit at the workload's width" and "all tensors
+    # fit at the memory's width".  Only the per-memory width keeps such a memory tracked.
+    if r.random() < 0.25:
+        ratio = r.choice([2, 4, 4])
+        p["glb_bits"] = bits * ratio
+        total = sum(M * N[i] + N[i] * N[i + 1] + M * N[i + 1] for i in range(n)) * bits
+        p["glb_size"] = max(bits, round(total * r.choice([1.0, 1.05, 1.2, 1.4, 1.7, 1.95])))
+        p["bpv_window"] = True
+        if "RESOURCE_USAGE" in p["metrics"] and r.random() < 0.7:
+            p["metrics"] = r.choice([["ENERGY"], ["ENERGY", "LATENCY"], ["ENERGY_DELAY_PRODUCT"]])
+        if r.random() < 0.7:
+            for run in runs:
+                run["staged_input"] = "normal"
+    return sc
 
 
 # ------------------------------------------------------------------ fronts
@@ -453,7 +469,8 @@ def run_seed(seed, ctx):
     bump(info)
     bump({"ru_metric_scenarios": int("RESOURCE_USAGE" in params["metrics"]),
           "multi_row_fronts": int(len(exact[1]) > 1),
-          "finite_glb_scenarios": int(params["glb_size"] != "inf")})
+          "finite_glb_scenarios": int(params["glb_size"] != "inf"),
+          "memory_width_window_scenarios": int(bool(params.get("bpv_window")))})
     shas = [hashlib.sha1(repr(exact).encode()).hexdigest()]
     for cfg in sc["runs"]:
         tape = _mk_tape(cfg)
